@@ -13,7 +13,7 @@ type SVOpts struct {
 	Abrupt   string // "" (no abrupt completion possible), "cycle" (references to enclosing containers allowed), "throw" (a toJSON may throw)
 }
 
-var svKeys = [][]uint16{ASCII("a"), ASCII("b"), ASCII("c"), ASCII(""), ASCII("0"), ASCII("1"), ASCII("1.5"), ASCII("NaN"), ASCII("k"), {0xE9}, {'<'}, {0x2028}, {'"', 'q', '"'}, ASCII("x y"), ASCII("length"), ASCII("null"), {0x0A}, {0x1F}}
+var svKeys = [][]uint16{ASCII("a"), ASCII("b"), ASCII("c"), ASCII(""), ASCII("0"), ASCII("1"), ASCII("1.5"), ASCII("NaN"), ASCII("k"), {0xE9}, {'<'}, {0x2028}, {'"', 'q', '"'}, ASCII("x y"), ASCII("length"), ASCII("null"), {0x0A}, {0x1F}, ASCII("\\u003c"), ASCII("\\u2029>"), ASCII("\\\\u0026")}
 
 var svNumbers = []float64{0, math.Copysign(0, -1), 1, -1, 1.5, 10, 1e21, 1e-7, 123456789012345680000, 0.000001, 1.5e300, 5e-324, math.MaxFloat64, math.NaN(), math.Inf(1), math.Inf(-1), 4294967296, 9007199254740992, -2147483648, 0.1, 1e-6, 99.5}
 
@@ -296,6 +296,20 @@ func genSpaceNum(t *rapid.T) float64 {
 }
 
 func genSpaceStr(t *rapid.T) []uint16 {
+	if rapid.IntRange(0, 4).Draw(t, "spaceastral") == 0 {
+		// 8-14 code units mixing astral and BMP characters: the cut after 10 code units falls before, inside or after a
+		// surrogate pair (code units, code points and bytes all give different cuts)
+		n := rapid.IntRange(8, 14).Draw(t, "spaceunits")
+		var out []uint16
+		for len(out) < n {
+			if len(out)+2 <= n && rapid.IntRange(0, 2).Draw(t, "spacepair") > 0 {
+				out = append(out, 0xD83D, 0xDE00)
+			} else {
+				out = append(out, rapid.SampledFrom([]uint16{' ', 0xE9, 0x4E2D, '\t'}).Draw(t, "spacebmp"))
+			}
+		}
+		return out
+	}
 	n := rapid.IntRange(0, 12).Draw(t, "spacelen")
 	var alpha []uint16
 	switch rapid.IntRange(0, 3).Draw(t, "spacealpha") {
